@@ -321,7 +321,7 @@ fn run_unit(tier: &str, unit: usize, out: &mut Out) {
             out.nontrivial(&(unit, &lens));
         }
         out.outcome(format!("files={}", so.len()));
-        if unit % 97 == 0 && lens.len() == *depth && w.iter().all(|i| *i == alphabet.len() - 2) {
+        if unit % 97 == 0 && lens.len() == *depth && w.iter().all(|i| *i + 2 == alphabet.len()) {
             out.sample(json!({"cfg": format!("{c:?}"), "line_lengths": lens, "file_sizes": so}));
         }
         if let Some(v) = v {
